@@ -96,10 +96,20 @@ class World:
         M._get_st_dev = fake_st_dev
         etc = [Filename(R + e) for e in case["etc"]]
         M._find_etc_dirs = lambda: list(etc)
+        # observe the file list get_default really loads (argument of _from_filenames)
+        self.loaded = loaded = []
+        self.saved_ff = M.ImportDB.__dict__["_from_filenames"]
+        orig = self.saved_ff.__func__
+
+        def _from_filenames(cls, filenames, *a, **k):
+            loaded.append([abstract_path(R, f) for f in filenames])
+            return orig(cls, filenames, *a, **k)
+        M.ImportDB._from_filenames = classmethod(_from_filenames)
 
     def close(self):
         M = self.M
         M._get_st_dev, M._find_etc_dirs = self.saved
+        M.ImportDB._from_filenames = self.saved_ff
         M.ImportDB._default_cache.clear()
         os.chdir(self.saved_cwd)
         for k, v in self.saved_env.items():
@@ -458,11 +468,9 @@ class C12(Prop):
         # uncached reference for every distinct query: cache cleared, get_default, file list from the (2, …) key
         for k, q in queries.items():
             DB._default_cache.clear()
+            del w.loaded[:]
             r = w.lookup(q)
-            files = None
-            for ck in DB._default_cache:
-                if isinstance(ck, tuple) and len(ck) >= 2 and ck[0] == 2 and isinstance(ck[1], tuple):
-                    files = [abstract_path(w.R, f) for f in ck[1]]
+            files = w.loaded[-1] if w.loaded else None
             try:
                 ref = ref_files(w, q)
             except Exception as e:      # pragma: no cover
@@ -588,10 +596,7 @@ class C12(Prop):
                     fails.append(dict(what="search path should be rejected", want=ref, query=q, files=files))
                 continue
             if files is None:
-                want = ref_db(_W, ref)
-                if not ("err" in db and want.get("err") == db["err"]):
-                    fails.append(dict(what="lookup failed though the search path and the files are valid", query=q,
-                                      err=db.get("err"), want_err=want.get("err"), ref_files=ref))
+                fails.append(dict(what="lookup failed though the search path is valid", query=q, err=db.get("err"), ref_files=ref))
                 continue
             if files != ref:
                 fails.append(dict(what="file list differs from the documented expansion", query=q, got=files, want=ref))
